@@ -461,3 +461,47 @@ func init() {
 		Edits: []Edit{{fCrud, "func (s *Server) cmdTTL(msg *Message) (resp.Value, error) {", "func (s *Server) cmdTTL(msg *Message) (resp.Value, error) { return s.cmdTTLrenamed(msg) }\n\nfunc (s *Server) cmdTTLrenamed(msg *Message) (resp.Value, error) {"}},
 		Why: "a handler renamed together with its dispatch entry (old name kept as a wrapper for the script table)"})
 }
+
+func init() {
+	// ---- R1 (C01) ----------------------------------------------------------
+	mutant(&Mutant{Name: "set-nx-after-store", Props: []string{"C01"}, File: fCrud,
+		Old:    "\told := col.Set(obj)\n\n\t// >> Response\n\n\tvar d commandDetails\n\td.command = \"set\"",
+		New:    "\told := col.Set(obj)\n\tif nx && old != nil {\n\t\treturn nada()\n\t}\n\n\t// >> Response\n\n\tvar d commandDetails\n\td.command = \"set\"",
+		Expect: "R1.err-before-effect", Key: "cmdSET→col.Set", Why: "SET NX stores first and answers nil afterwards"})
+	mutant(&Mutant{Name: "set-create-before-xx", Props: []string{"C01"}, File: fCrud,
+		Old:    "\t\tif xx {\n\t\t\treturn nada()\n\t\t}\n\t\tcol = collection.New()\n\t\ts.cols.Set(key, col)\n\t}",
+		New:    "\t\tcol = collection.New()\n\t\ts.cols.Set(key, col)\n\t\tif xx {\n\t\t\treturn nada()\n\t\t}\n\t}",
+		Expect: "R1.empty-collection", Key: "cmdSET→s.cols.Set/filled", Why: "SET XX on a missing key leaves an empty collection behind"})
+	mutant(&Mutant{Name: "set-create-before-xx/err", Props: []string{"C01"}, File: fCrud,
+		Old:    "\t\tif xx {\n\t\t\treturn nada()\n\t\t}\n\t\tcol = collection.New()\n\t\ts.cols.Set(key, col)\n\t}",
+		New:    "\t\tcol = collection.New()\n\t\ts.cols.Set(key, col)\n\t\tif xx {\n\t\t\treturn nada()\n\t\t}\n\t}",
+		Expect: "R1.err-before-effect", Key: "cmdSET→s.cols.Set", Why: "negative reply after the keyspace changed"})
+	mutant(&Mutant{Name: "del-no-cleanup", Props: []string{"C01", "C19"}, File: fCrud,
+		Old:    "\t\tif old != nil {\n\t\t\tif col.Count() == 0 {\n\t\t\t\ts.cols.Delete(key)\n\t\t\t}\n\t\t\tupdated = true",
+		New:    "\t\tif old != nil {\n\t\t\tupdated = true",
+		Expect: "R1.empty-collection", Key: "cmdDEL→col.Delete/cleanup", Why: "last DEL leaves an empty collection in the keyspace"})
+	mutant(&Mutant{Name: "pdel-no-cleanup", Props: []string{"C01", "C19"}, File: fCrud,
+		Old:    "\t\t\ts.groupDisconnectObject(key, id)\n\t\t}\n\t\tif col.Count() == 0 {\n\t\t\ts.cols.Delete(key)\n\t\t}\n\t}",
+		New:    "\t\t\ts.groupDisconnectObject(key, id)\n\t\t}\n\t}",
+		Expect: "R1.empty-collection", Key: "cmdPDEL→col.Delete/cleanup", Why: "PDEL * leaves an empty collection"})
+	mutant(&Mutant{Name: "del-cleanup-wrong-count", Props: []string{"C01"}, File: fCrud,
+		Old:    "\t\tif old != nil {\n\t\t\tif col.Count() == 0 {\n\t\t\t\ts.cols.Delete(key)",
+		New:    "\t\tif old != nil {\n\t\t\tif col.PointCount() == 0 {\n\t\t\t\ts.cols.Delete(key)",
+		Expect: "R1.empty-collection", Key: "cmdDEL→col.Delete/cleanup", Why: "cleanup keyed on the wrong counter drops collections that still hold strings"})
+	mutant(&Mutant{Name: "rename-delete-before-hook-check", Props: []string{"C01"}, File: fCrud,
+		Old:    "\tvar hasHook, hasChannel bool\n\ts.hooks.Ascend(nil, func(v interface{}) bool {\n\t\th := v.(*Hook)\n\t\tif h.Key == key || h.Key == newKey {",
+		New:    "\tif !nx {\n\t\ts.cols.Delete(newKey)\n\t}\n\tvar hasHook, hasChannel bool\n\ts.hooks.Ascend(nil, func(v interface{}) bool {\n\t\th := v.(*Hook)\n\t\tif h.Key == key || h.Key == newKey {",
+		Expect: "R1.err-before-effect", Key: "cmdRENAME→s.cols.Delete", Why: "RENAME drops the destination and then refuses because of hooks"})
+	mutant(&Mutant{Name: "del-erron404-after-delete", Props: []string{"C01"}, File: fCrud,
+		Old:    "\t\t\tupdated = true\n\t\t} else if erron404 {\n\t\t\treturn retwerr(errIDNotFound)\n\t\t}",
+		New:    "\t\t\tupdated = true\n\t\t}\n\t\tif erron404 && old.Expires() != 0 {\n\t\t\treturn retwerr(errIDNotFound)\n\t\t}",
+		Expect: "R1.err-before-effect", Key: "cmdDEL→col.Delete", Why: "error after an effective delete"})
+	mutant(&Mutant{Name: "neutral-del-cleanup-after-flag", Props: []string{"C01", "C19", "C03"}, File: fCrud, Neutral: true,
+		Old:    "\t\tif old != nil {\n\t\t\tif col.Count() == 0 {\n\t\t\t\ts.cols.Delete(key)\n\t\t\t}\n\t\t\tupdated = true",
+		New:    "\t\tif old != nil {\n\t\t\tupdated = true\n\t\t\tif col.Count() == 0 {\n\t\t\t\ts.cols.Delete(key)\n\t\t\t}",
+		Why:    "order of flag and cleanup is irrelevant"})
+	mutant(&Mutant{Name: "neutral-set-xx-split", Props: []string{"C01"}, File: fCrud, Neutral: true,
+		Old:    "\tif xx || nx {\n\t\tif col.Get(id) == nil {\n\t\t\tif xx {\n\t\t\t\treturn nada()\n\t\t\t}\n\t\t} else {\n\t\t\tif nx {\n\t\t\t\treturn nada()\n\t\t\t}\n\t\t}\n\t}",
+		New:    "\tif xx && col.Get(id) == nil {\n\t\treturn nada()\n\t}\n\tif nx && col.Get(id) != nil {\n\t\treturn nada()\n\t}",
+		Why:    "same NX/XX decision written as two guards"})
+}
